@@ -29,7 +29,7 @@ RULE = (
     "goofit exporting only API names; the two model records must agree field by field (event type, mass constants, resonance "
     "M/W variables, parameters with value/error/fixedness, arrays, amplitudes in input order with coefficient names/values/"
     "fixedness, spin factors, lineshapes); every model symbol must be declared before use in both; _r != _i; ret_output=True "
-    "equals captured stdout; the command-line entry point prints the same (sampled). Non-trivial: >=2 amplitudes, >=1 free "
+    "equals captured stdout; the command-line entry point prints the same (a fixed two-line file in the quick tier, generated files in the thorough tier). Non-trivial: >=2 amplitudes, >=1 free "
     "coupling and >=1 non-RBW lineshape."
 )
 ASSUMPTIONS = ["the recording stand-in pbt/stub/goofit.py enforces names and call shapes of the GooFit Python API, not its semantics (GooFit is not installed)",
@@ -337,8 +337,32 @@ def cli_unit(rec, gen):
     rec.case({"cli": gen}, True, ["cli-" + gen], sample={"cli": f"python -m decaylanguage -G {gen} <file>", "lines": len(b)})
 
 
+def check_cli_case(case, rec):
+    """A generated file through the command-line entry point (fresh interpreter, no memo) vs the function's string."""
+    from decaylanguage.modeling.ampgen2goofit import ampgen2goofit, ampgen2goofitpy
+
+    text = A.render(to_ast(case))
+    gen = "goofit" if case.get("order", 0) % 2 == 0 else "goofitpy"
+    with tempfile.TemporaryDirectory(prefix="c19g_") as td:
+        path = Path(td) / "m.txt"
+        path.write_text(text)
+        r = subprocess.run([sys.executable, "-m", "decaylanguage", "-G", gen, str(path)], capture_output=True, text=True, env=dict(os.environ), timeout=1800)
+        if r.returncode != 0:
+            raise Mismatch("C19:cli-fails", f"python -m decaylanguage -G {gen}: exit {r.returncode}: {r.stderr[-400:]}")
+        A.install_memo()
+        with impl(ID, "convert"):
+            want = (ampgen2goofit if gen == "goofit" else ampgen2goofitpy)(str(path), ret_output=True)
+    a, b = sorted(strip_volatile(want).split("\n")), sorted(strip_volatile(r.stdout).split("\n"))
+    if a != b:
+        raise Mismatch("C19:cli-differs", f"-G {gen}: command-line output differs from the function's string (as multisets of lines)",
+                       [x for x in a if x not in b][:2], [x for x in b if x not in a][:2])
+    rec.case(case, len(case["amps"]) >= 2, ["cli-generated-" + gen], sample=lambda: {"cli": gen, "text": text})
+
+
 def replay(case, rec):
-    if case.get("shipped"):
+    if case.get("via_cli"):
+        check_cli_case(case, rec)
+    elif case.get("shipped"):
         shipped_unit(rec, case["append_sA0"])
     elif "cli" in case:
         cli_unit(rec, case["cli"])
@@ -350,7 +374,9 @@ def units(tier, seed):
     quick = tier == "quick"
     u = [{"name": "shipped", "kind": "shipped", "sA0": False}, {"name": "shipped+sA_0", "kind": "shipped", "sA0": True},
          {"name": "cli-goofit", "kind": "cli", "gen": "goofit"}, {"name": "cli-goofitpy", "kind": "cli", "gen": "goofitpy"}]
-    u += [{"name": f"hyp{k:02d}", "kind": "hyp", "n": 20 if quick else 200} for k in range(12)]
+    u += [{"name": f"hyp{k:02d}", "kind": "hyp", "n": 20 if quick else 200} for k in range(12 if quick else 10)]
+    if not quick:
+        u += [{"name": f"cli-gen{k}", "kind": "cli-gen", "n": 6} for k in range(2)]
     return u
 
 
@@ -359,5 +385,7 @@ def run_unit(unit, seed, rec, tier):
         shipped_unit(rec, unit["sA0"])
     elif unit["kind"] == "cli":
         cli_unit(rec, unit["gen"])
+    elif unit["kind"] == "cli-gen":
+        hyp_run(rec, c19_case().map(lambda c: dict(c, via_cli=True)), check_cli_case, unit["n"], seed, render=lambda c: A.render(to_ast(c)), shrink_budget_s=120)
     else:
         hyp_run(rec, c19_case(), check_case, unit["n"], seed, render=lambda c: A.render(to_ast(c)))
